@@ -25,12 +25,27 @@ func c20Run(sc *Scenario, st *Stats) []Violation {
 	var allocCost uint64
 	var allocMem int
 	var jN, jCost, jAlloc uint64
-	closeAlloc := func() {
+	allocDepth := 0
+	closeAlloc := func(nextMem, nextDepth int) {
 		if !allocOpen {
 			return
 		}
 		allocOpen = false
 		d := memTotalAlloc() - allocStart
+		// A copy / hash / log instruction that did not expand memory (the next instruction of the
+		// same frame sees the same memory size) has nothing to re-allocate: what it allocates is
+		// covered by its own fee alone (3 gas per word at least), without the memory-size term.
+		if copyLikeOp(allocOp) && nextDepth == allocDepth && nextMem == allocMem {
+			st.Extra["alloc-windows-without-expansion"]++
+			if allocMem >= 64<<10 {
+				st.Probes["copy-on-large-existing-memory"]++
+			}
+			if d > 64<<10+64*allocCost {
+				vs = append(vs, Violation{Prop: "C20", Rule: "C20.alloc", Sig: siteOfOp(allocOp) + "/no-expansion", Seq: allocSeq,
+					Msg: fmt.Sprintf("instruction %s (cost %d gas) did not expand memory (%d bytes) and made the VM allocate %d bytes before the next instruction (allowed: 64 KiB + 64 bytes per gas)", siteOfOp(allocOp), allocCost, allocMem, d)})
+				return
+			}
+		}
 		if c20Debug && d > 8192+64*allocCost+2*uint64(allocMem) {
 			if f, err := os.OpenFile(fmt.Sprintf("/tmp/c20dbg.%d", os.Getpid()), os.O_APPEND|os.O_CREATE|os.O_WRONLY, 0644); err == nil {
 				fmt.Fprintf(f, "c20dbg op=%02x cost=%d mem=%d alloc=%d excess=%d\n", allocOp, allocCost, allocMem, d, d-64*allocCost-2*uint64(allocMem))
@@ -63,20 +78,21 @@ func c20Run(sc *Scenario, st *Stats) []Violation {
 		return isJournalOp(op) || isCallOp(op)
 	}
 	env.Rec.OnStep = func(e *Ev) {
-		closeAlloc()
+		closeAlloc(e.MemLen, e.Depth)
 		steps++
 		sh.Write([]byte{e.Op, byte(e.Depth)})
 		env.DB.Reads = 0
 		env.DB.ReadBudget = readBudget(e.Cost)
 		if e.Err == "" && watched(e.Op) {
 			st.Extra["alloc-windows"]++
+			allocDepth = e.Depth
 			allocOpen, allocStart, allocSeq, allocOp, allocCost, allocMem = true, memTotalAlloc(), e.Seq, e.Op, e.Cost, e.MemLen
 		}
 	}
 	l.onEv = append(l.onEv, func(e *Ev) {
 		switch e.K {
 		case evTxDone:
-			closeAlloc()
+			closeAlloc(-1, -1)
 			if jN > 0 {
 				if c20Debug && jN > 100 {
 					if f, err := os.OpenFile(fmt.Sprintf("/tmp/c20dbg.%d", os.Getpid()), os.O_APPEND|os.O_CREATE|os.O_WRONLY, 0644); err == nil {
@@ -114,4 +130,12 @@ func c20Run(sc *Scenario, st *Stats) []Violation {
 		}
 	}
 	return vs
+}
+
+func copyLikeOp(op byte) bool {
+	switch op {
+	case 0x20, 0x37, 0x39, 0x3c, 0x3e, 0x5e, 0xa0, 0xa1, 0xa2, 0xa3, 0xa4:
+		return true
+	}
+	return false
 }
